@@ -3258,7 +3258,11 @@ impl<'i, R: BufRead> XmlRead<'i> for IoReader<R> {
     fn read_to_end(&mut self, name: QName) -> Result<(), DeError> {
         match self.reader.read_to_end_into(name, &mut self.buf) {
             Err(e) => Err(e.into()),
-            Ok(_) => Ok(()),
+            Ok(_) => {
+                // The last consumed event is an end tag: text after it should be trimmed
+                self.start_trimmer.trim_start = true;
+                Ok(())
+            }
         }
     }
 
@@ -3327,7 +3331,11 @@ impl<'de> XmlRead<'de> for SliceReader<'de> {
     fn read_to_end(&mut self, name: QName) -> Result<(), DeError> {
         match self.reader.read_to_end(name) {
             Err(e) => Err(e.into()),
-            Ok(_) => Ok(()),
+            Ok(_) => {
+                // The last consumed event is an end tag: text after it should be trimmed
+                self.start_trimmer.trim_start = true;
+                Ok(())
+            }
         }
     }
 
